@@ -2102,20 +2102,24 @@ class PseudoNetCDFFile(PseudoNetCDFSelfReg, object):
             for pk in varo.ncattrs():
                 setattr(newvaro, pk, getattr(varo, pk))
             if anyisarray and needsfancy:
+                # integers are applied as scalars, so a point array only has
+                # the sliced axes; the new dimension goes after the sliced
+                # axes that precede the first list. the length-1 axes of the
+                # integers are restored by the assignment below
+                pointax = sum([isinstance(si, slice)
+                               for si in sliceo[:concatax]])
                 point_arrays = []
                 for ii in range(arraylen):
                     sliceoi = []
                     for si in sliceo:
-                        if np.isscalar(si):
-                            sliceoi.append([si])
-                        elif isinstance(si, slice):
+                        if np.isscalar(si) or isinstance(si, slice):
                             sliceoi.append(si)
                         else:
                             sliceoi.append(si.ravel()[ii])
                     sliceoi = tuple(sliceoi)
                     point_arrays.append(np.ma.expand_dims(
-                        varo[sliceoi], axis=concatax))
-                newvals = np.ma.concatenate(point_arrays, axis=concatax)
+                        varo[sliceoi], axis=pointax))
+                newvals = np.ma.concatenate(point_arrays, axis=pointax)
             else:
                 # apply the selectors one axis at a time (orthogonal
                 # selection); indexing with the whole tuple lets numpy move
